@@ -74,6 +74,9 @@ def run(ctx):
     ctx.not_decided = 'behaviour for all chunk parameters; how many times a body asks to be re-run.'
     u = ctx.extract('parsec/scheduling.c')
     ra = ctx.rule('R16.a', '__parsec_task_progress: AGAIN/DONE/ASYNC path obligations', floor=6)
+    rc16 = ctx.rule('R16.c', 'DTD: a task deferred because of its own earlier READ of the tile has that reader released when the WRITE flow is linked (otherwise it is re-run for ever)', floor=1)
+    from rules import dtdcommon as _D
+    _D.check_self_hold_release(ctx, rc16, 'dtd-self-hold')
     check_task_progress(ctx, ra, u)
     from rules import gen16
     gen16.check_R16b(ctx)
